@@ -173,8 +173,15 @@ class Runner:
         text = '[setup]\n\n' + '\n'.join(self.instr_src(i) for i in instrs) + '\n'
         r = self.run_case(self.phome, text, keep=True)
         status = self.status_of(r)
-        sds_list = os.listdir(self.sbx)
+        entries = os.listdir(self.sbx)
+        sds_list = [n for n in entries if n.startswith('exactly-') and os.path.isdir(os.path.join(self.sbx, n))
+                    and not os.path.islink(os.path.join(self.sbx, n))]
         tree_term, tree_json, problems = '(@nil (name * tree))', None, []
+        for n in entries:
+            if n not in sds_list:
+                q = os.path.join(self.sbx, n)
+                problems.append('created next to the sandbox directory: %r' % {n: json_tree(q)})
+                shutil.rmtree(q) if os.path.isdir(q) and not os.path.islink(q) else os.remove(q)
         if len(sds_list) == 1:
             sds = os.path.join(self.sbx, sds_list[0])
             act = os.path.join(sds, 'act')
@@ -210,6 +217,32 @@ class Runner:
         return {'text': text, 'status': status, 'tree_term': tree_term, 'tree': tree_json, 'problems': problems,
                 'stderr': r.err[-600:] if status not in ('PASS',) else ''}
 
+    # ---- round trip: the same setup, then dir-contents DIR : -recursive matches -full {listing of what was found} ----
+    @staticmethod
+    def listing_of(tree_json, prefix=()):
+        """[(components, 'file'|'dir')] of a json_tree without symbolic links; None if there is a link"""
+        out = []
+        for n in sorted(tree_json):
+            v = tree_json[n]
+            if isinstance(v, str):
+                out.append((prefix + (n,), 'file'))
+            elif 'symlink' in v and isinstance(v.get('dangling'), bool):
+                return None
+            else:
+                out.append((prefix + (n,), 'dir'))
+                sub = Runner.listing_of(v, prefix + (n,))
+                if sub is None:
+                    return None
+                out += sub
+        return out
+
+    def run_round_trip(self, instrs, dirname, listing):
+        cond = '{\n' + ''.join('  %s : type %s\n' % ('/'.join(c), t) for c, t in listing) + '}' if listing else '{ }'
+        text = ('[setup]\n\n' + '\n'.join(self.instr_src(i) for i in instrs) +
+                '\n\n[assert]\n\ndir-contents %s : -recursive matches -full %s\n' % (dirname, cond))
+        r = self.run_case(self.phome, text, keep=False)
+        return {'text': text, 'status': self.status_of(r), 'stderr': r.err[-600:] if r.exit_code != 0 else ''}
+
     # ---- rendering of FILE-LISTs ----
     def name_src(self, nm):
         if nm == '' or any(c in nm for c in ':; '):
@@ -237,7 +270,9 @@ class Runner:
         if i[0] == 'make':
             return self.entry_src(i[1], 0)
         _, comps, kind = i
-        target = {'dangling': 'nowhere-to-be-found', 'homefile': os.path.join(self.phome, 'lnk_file'),
+        # a dangling target next to the link, or (relative) outside of the act directory
+        dangling = 'nowhere-to-be-found' if (len(comps) + len(comps[-1])) % 2 == 0 else '../' * (len(comps) + 1) + 'escaped-through-link'
+        target = {'dangling': dangling, 'homefile': os.path.join(self.phome, 'lnk_file'),
                   'homedir': os.path.join(self.phome, 'lnk_dir')}[kind]
         return '$ ln -sT %s %s' % (target, '/'.join(comps))
 
@@ -279,6 +314,7 @@ class Runner:
 # =================================================================================================
 GOOD_NAMES = ['a', 'b', 'c', 'a/b', 'b/c', 'a/b/c', 'c/a', 'a/c', 'b/a/d', './a', 'a//b', 'a/./c', 'b/', '.', 'x.txt',
               'a/x.txt']
+MORE_NAMES = ['e', 'h', 'k', 'm/n', 'e/h', 'k/m', 'p', 'q/r/s', 'u.v', 'w']
 CONTENTS = ['', 'x', 'hello', 'yy']
 
 
@@ -287,60 +323,156 @@ def bad_names(run):
             '../../e', 'b/../../e']
 
 
-def gen_entry(rng, run, depth, allow_bad):
-    r = rng.below(100)
+def norm_name(nm):
+    return '/'.join(c for c in nm.split('/') if c not in ('', '.'))
+
+
+def note_created(created, nm, kind):
+    key = norm_name(nm)
+    comps = key.split('/') if key else []
+    for i in range(1, len(comps)):
+        created.setdefault('/'.join(comps[:i]), 'd')
+    if key:
+        created.setdefault(key, kind)
+
+
+def gen_entry(rng, run, depth, allow_bad, created=None):
+    """created: what earlier entries of the same list made (normalised name -> 'f' | 'd'); appends mostly go there"""
+    if created is None:
+        created = {}
     if allow_bad and rng.chance(0.04):
         nm = rng.choice(bad_names(run))
-    else:
-        nm = rng.choice(GOOD_NAMES[:9]) if rng.chance(0.7) else rng.choice(GOOD_NAMES)
-    if r < 38:
-        q = rng.below(10)
-        if q < 3:
-            return ('file', nm, None)
-        if q < 7:
-            return ('file', nm, ('=', rng.choice(CONTENTS)))
-        return ('file', nm, ('+=', rng.choice(CONTENTS)))
-    if r < 50:
+        return rng.choice([('file', nm, None), ('dir', nm), ('file', nm, ('=', 'x')), ('dirlist', nm, '=', [])])
+    existing = sorted(created)
+    if existing and rng.chance(0.45):
+        key = rng.choice(existing)
+        nm = rng.choice([key, key, './' + key, key.replace('/', '//'), key + '/'])
+        if created[key] == 'f':
+            if rng.chance(0.7):
+                return ('file', nm, ('+=', rng.choice(CONTENTS)))
+            return rng.choice([('file', nm, None), ('dir', nm), ('dirlist', nm, '+=', []), ('file', nm + '/below', None)])
+        r = rng.below(10)
+        if r < 4 and depth > 0:
+            return ('dirlist', nm, '+=', gen_list(rng, run, depth - 1, allow_bad, rng.randint(0, 3)))
+        if r < 6:
+            return ('dircopy', nm, '+=', pick_src(rng, run))
+        if r < 8:
+            sub = key + '/' + rng.choice(['a', 'b', 'n1', 'n2/n3'])
+            note_created(created, sub, 'f')
+            return ('file', sub, ('=', rng.choice(CONTENTS)))
+        return rng.choice([('dir', nm), ('file', nm, ('+=', 'x')), ('dirlist', nm, '=', []), ('file', nm, None)])
+    for _ in range(4):
+        nm = rng.choice(GOOD_NAMES[:9]) if rng.chance(0.5) else rng.choice(GOOD_NAMES + MORE_NAMES)
+        key = norm_name(nm)
+        comps = key.split('/')
+        clash = key in created or key == '' or any(created.get('/'.join(comps[:i])) == 'f' for i in range(1, len(comps)))
+        if not clash or rng.chance(0.2):
+            break
+    r = rng.below(100)
+    if r < 4:        # a blind append
+        return rng.choice([('file', nm, ('+=', 'x')), ('dirlist', nm, '+=', []), ('dircopy', nm, '+=', 1)])
+    if r < 45:
+        note_created(created, nm, 'f')
+        return ('file', nm, None if rng.chance(0.35) else ('=', rng.choice(CONTENTS)))
+    if r < 58 or depth <= 0:
+        note_created(created, nm, 'd')
         return ('dir', nm)
-    if r < 85 and depth > 0:
-        md = '=' if rng.chance(0.6) else '+='
-        return ('dirlist', nm, md, [gen_entry(rng, run, depth - 1, allow_bad) for _ in range(rng.randint(0, 3))])
-    if r < 85:
-        return ('dir', nm)
-    return ('dircopy', nm, '=' if rng.chance(0.5) else '+=', rng.below(run.nsrc))
+    if r < 88:
+        note_created(created, nm, 'd')
+        return ('dirlist', nm, '=', gen_list(rng, run, depth - 1, allow_bad, rng.randint(0, 3)))
+    note_created(created, nm, 'd')
+    return ('dircopy', nm, '=', pick_src(rng, run))
+
+
+def pick_src(rng, run):
+    return rng.weighted([(0, 2), (1, 5), (2, 4), (3, 1), (4, 1)])
+
+
+def gen_list(rng, run, depth, allow_bad, n):
+    created = {}
+    return [gen_entry(rng, run, depth, allow_bad, created) for _ in range(n)]
 
 
 TOP_NAMES = ['d', 'd', 'd', 'g', 'd/e']
 
 
+SRC_TOP_NAMES = ['a', 'b', 'c', 'f', 'lf', 'ld', 'dang']          # the names at the top of the copy sources
+
+
+def gen_scenario(rng, run):
+    """a directory that exists, symbolic links put into it, then something that adds to it"""
+    out = []
+    r = rng.below(3)
+    if r == 0:
+        out.append(('make', ('dir', 'd')))
+    elif r == 1:
+        out.append(('make', ('dirlist', 'd', '=', gen_list(rng, run, 1, False, rng.randint(0, 2)))))
+    else:
+        out.append(('make', ('dircopy', 'd', '=', rng.choice([0, 1, 2]))))
+    for _ in range(rng.randint(1, 2)):
+        kind = rng.weighted([('dangling', 8), ('homefile', 2)])
+        out.append(('symlink', ['d', rng.choice(SRC_TOP_NAMES + ['x.txt', 'k'])], kind))
+    r = rng.below(10)
+    if r < 5:
+        out.append(('make', ('dircopy', 'd', '+=', rng.below(run.nsrc))))
+    elif r < 9:
+        out.append(('make', ('dirlist', 'd', '+=', gen_list(rng, run, 1, False, rng.randint(1, 3)))))
+    else:
+        out.append(('make', ('dirlist', 'g', '=', [('dircopy', 'k', '=', rng.below(run.nsrc))])))
+    return out
+
+
 def gen_instrs(rng, run):
     """1-4 instructions; the first usually creates d; later ones append to / clash with what exists"""
-    n = rng.randint(1, 4)
+    if rng.chance(0.15):
+        return gen_scenario(rng, run)
+    n = rng.weighted([(1, 4), (2, 4), (3, 2), (4, 1)])
     out = []
     allow_bad = rng.chance(0.25)
+    top = {}                      # what exists at the top of the act directory (as far as the generator knows)
     for k in range(n):
         r = rng.below(100)
-        if k > 0 and r < 22:
-            # a symbolic link inside a directory that (probably) exists
-            parent = rng.choice([['d'], ['d'], ['d', 'a'], ['d', 'b'], []])
+        dirs = sorted(x for x in top if top[x] == 'd')
+        if dirs and r < 20:
+            # a symbolic link inside a directory that exists
+            parent = rng.choice(dirs).split('/')
             kind = rng.weighted([('dangling', 8), ('homefile', 2), ('homedir', 1)])
             if kind == 'homedir':
                 comps = parent + ['zlink']          # a name no FILE-NAME of the generator uses
             else:
-                comps = parent + [rng.choice(['a', 'b', 'c', 'f', 'lf', 'dang', 'x.txt'])]
+                comps = parent + [rng.choice(SRC_TOP_NAMES + ['x.txt', 'e'])]
             out.append(('symlink', comps, kind))
             continue
-        top = rng.choice(TOP_NAMES)
-        if r < 30:
-            e = ('file', rng.choice(['f', 'd', 'd/a', 'd/b/c']), rng.choice([None, ('=', 'top'), ('+=', 'more')]))
-        elif r < 36:
-            e = ('dir', top)
-        elif r < 84:
-            md = '=' if (k == 0 or rng.chance(0.3)) else '+='
-            e = ('dirlist', top, md, [gen_entry(rng, run, 2, allow_bad) for _ in range(rng.randint(0, 5))])
+        if dirs and r < 55:
+            d = rng.choice(dirs)
+            if rng.chance(0.7):
+                e = ('dirlist', d, '+=', gen_list(rng, run, 2, allow_bad, rng.randint(0, 4)))
+            else:
+                e = ('dircopy', d, '+=', pick_src(rng, run))
+        elif r < 65:
+            nm = rng.choice(['f', 'd', 'd/a', 'd/b/c', 'g/f'])
+            if top.get(nm) == 'f':
+                e = ('file', nm, ('+=', 'more') if rng.chance(0.75) else None)
+            else:
+                e = ('file', nm, rng.choice([None, ('=', 'top'), ('=', ''), ('=', 'x')]) if rng.chance(0.9) else ('+=', 'more'))
+                if e[2] is None or e[2][0] == '=':
+                    note_created(top, nm, 'f')
+        elif r < 70:
+            nm = rng.choice(TOP_NAMES)
+            e = ('dir', nm)
+            note_created(top, nm, 'd')
         else:
-            md = '=' if (k == 0 or rng.chance(0.3)) else '+='
-            e = ('dircopy', top, md, rng.below(run.nsrc))
+            nm = rng.choice(TOP_NAMES)
+            if top.get(nm) == 'd':
+                md = '+=' if rng.chance(0.85) else '='
+            else:
+                md = '=' if rng.chance(0.9) else '+='
+            if r < 92:
+                e = ('dirlist', nm, md, gen_list(rng, run, 2, allow_bad, rng.randint(0, 4)))
+            else:
+                e = ('dircopy', nm, md, pick_src(rng, run))
+            if md == '=':
+                note_created(top, nm, 'd')
         out.append(('make', e))
     return out
 
@@ -828,6 +960,28 @@ def collect(ctx, res, rng, n_p, n_trees, per_tree, scratch_name='c15-run'):
             res.count('populate: ' + x)
         if len(f) >= 2 or (o['status'] == 'HARD_ERROR' and f):
             res.nontrivial.add(('p', o['text']))
+        # round trip on the directory d of a run that passed (trees without symbolic links)
+        if o['status'] == 'PASS' and not o['problems'] and isinstance((o['tree'] or {}).get('d'), dict) \
+                and 'symlink' not in o['tree']['d'] and rng.chance(0.7):
+            lst = Runner.listing_of(o['tree']['d'])
+            if lst is not None:
+                rt = run.run_round_trip(instrs, 'd', lst)
+                d = {'kind': 'round-trip', 'case': rt['text'], 'verdict': rt['status'], 'stderr': rt['stderr']}
+                if rt['status'] not in VERDICT:
+                    if rt['status'] == 'SYNTAX_ERROR':
+                        res.errors.append('generator produced a case that is a SYNTAX_ERROR: %r %r' % (rt['text'], rt['stderr']))
+                    else:
+                        res.prop_failures.append(Failure('property', d, 'verdict other than PASS / FAIL / HARD_ERROR / VALIDATION_ERROR'))
+                else:
+                    fc = 'FCNil'
+                    for c, t in reversed(lst):
+                        fc = '(FCNameM %s (FType %s) %s)' % (ctext('/'.join(c)), 'TFile' if t == 'file' else 'TDir', fc)
+                    terms.append('(CR (RCase %s %s %s %s))' % (clist([run.instr_term(i) for i in instrs]), ctext('d'), fc,
+                                                            VERDICT[rt['status']]))
+                    descs.append(d)
+                    res.count('round trip: verdict ' + rt['status'])
+                    if len(lst) >= 3:
+                        res.nontrivial.add(('r', rt['text']))
     # ---------------- matcher cases ----------------
     for k in range(n_trees):
         root_name = 'T%d' % k
@@ -885,14 +1039,17 @@ def evaluate(ctx, res, terms, descs, tag='cases'):
     res.errors += errs
     for i in pb:
         d = descs[i]
-        what = ('the tree in the act directory is not the tree the FILE-LIST denotes (or a forbidden FILE-NAME was not rejected, '
-                'or something outside was touched)' if d['kind'] == 'populate'
-                else 'the verdict differs from the declarative semantics of the matcher on this tree')
+        what = {'populate': 'the tree in the act directory is not the tree the FILE-LIST denotes (or a forbidden FILE-NAME was not '
+                            'rejected, or something outside was touched)',
+                'matcher': 'the verdict differs from the declarative semantics of the matcher on this tree',
+                'round-trip': 'after populating, matches -full of the complete typed listing of the directory does not hold'}[d['kind']]
         res.prop_failures.append(Failure('property', d, what))
     for i in cb:
         d = descs[i]
         res.disagreements.append(Failure('correspondence', d, 'the model predicts a different %s' %
                                          ('tree / status' if d['kind'] == 'populate' else 'verdict')))
+    with open(os.path.join(ctx.work, 'C15_%s_failures.json' % tag), 'w') as f:
+        json.dump({'property': [descs[i] for i in pb], 'correspondence': [descs[i] for i in cb]}, f, indent=1, default=str)
 
 
 def run(ctx, res):
@@ -906,16 +1063,23 @@ def run(ctx, res):
                 'min/max depth in {none,0..3}, both nestings of -selection / -with-pruned, FILES-CONDITIONs built from the paths '
                 'of the tree (with ./ // variants, duplicates, missing names) and the complete listing of the tree. non-trivial := '
                 'populate: >= 2 of {multi-component name, +=, nesting, copy, pre-existing link} or a HARD_ERROR with one; '
-                'matcher: >= 3 different constructs on a tree with >= 3 reachable files; distinct := distinct case text')
+                'matcher: >= 3 different constructs on a tree with >= 3 reachable files; round trip (70 % of the passed populate runs whose d '
+                'has no link: same setup + dir-contents d : -recursive matches -full {typed listing of d}): >= 3 files; distinct := '
+                'distinct case text')
     terms, descs = collect(ctx, res, rng, n_p, n_trees, per_tree)
     res.evaluations = len(terms)
-    res.samples = [{'case': d['case'], 'observed': d.get('status') or d.get('verdict')} for d in descs[9:12] + descs[-3:]]
+    res.samples = [{'case': d['case'], 'observed': d.get('status') or d.get('verdict')} for d in descs[9:13] + descs[-3:]]
     evaluate(ctx, res, terms, descs)
     # how many matcher cases the declarative semantics decides (the others involve a documented HARD_ERROR)
-    mterms = ['(match %s with CM c => (sem_defined c, true) | _ => (true, true) end)' % t for t in terms if t.startswith('(CM')]
+    mterms = ['(match %s with CM c => (sem_defined c, true) | _ => (true, true) end)' % t for t in terms if t.startswith('(CM')][:3000]
     und, _, errs = common.run_shards('C15', IMPORTS, '(fun x => x)', mterms, shard_size=250, tag='semdef')
     res.errors += errs
-    res.extra['matcher_cases'] = len(mterms)
+    pterms = ['(match %s with CP c => (negb (pcase_out_of_scope c), true) | _ => (true, true) end)' % t for t in terms if t.startswith('(CP')][:3000]
+    oos, _, errs = common.run_shards('C15', IMPORTS, '(fun x => x)', pterms, shard_size=400, tag='scope')
+    res.errors += errs
+    res.extra['populate_cases_sampled_for_scope'] = len(pterms)
+    res.extra['populate_cases_out_of_scope_write_through_link'] = len(oos)
+    res.extra['matcher_cases_sampled_for_definedness'] = len(mterms)
     res.extra['matcher_cases_with_declarative_verdict'] = len(mterms) - len(und)
 
 
